@@ -39,7 +39,8 @@ WhyConcat(e) ==
 \* not make the function panic: the pieces are empty)
 FramePiece(seq, f) == Trunc3(Drop(seq, Least(f - 1, Len(seq))))
 WhyFrames(e) ==
-  IF \E f \in 1..3 : ~Over(FramePiece(e.seq, f), Nucs) THEN "ok"
+  \* a foreign base inside a piece: that frame "equals Translate of the piece", and Translate of such a piece panics
+  IF \E f \in 1..3 : ~Over(FramePiece(e.seq, f), Nucs) THEN (IF e.panic THEN "ok" ELSE "frames-no-panic-on-foreign-base")
   ELSE IF e.panic THEN "frames-panic"
   ELSE IF Len(e.out) # 3 THEN "frames-shape"
   ELSE IF e.out # Frames(e.seq) THEN "frames-result"
